@@ -295,6 +295,8 @@ type MonLog struct {
 	AfterSave  func(host string, uds []pb.Update)
 	SaveDelay  func() time.Duration
 	OnSaveSnapshots func(host string, before bool)
+	// OnViolation reports what the monitor itself decides (see RemoveEntriesTo)
+	OnViolation func(sig string, format string, args ...interface{})
 	// OnSnapshotRecord sees every locally created snapshot recorded in the log store
 	OnSnapshotRecord func(shard, replica, index uint64)
 	saveCalls  int64
@@ -430,6 +432,23 @@ func (d *monDB) SaveRaftState(uds []pb.Update, shardID uint64) error {
 		}
 	}
 	return err
+}
+
+// RemoveEntriesTo: C08, log compaction never removes an entry that is not covered
+// by a snapshot the replica can durably recover from.
+func (d *monDB) RemoveEntriesTo(shardID uint64, replicaID uint64, index uint64) error {
+	if atomic.LoadInt32(&d.mon.frozen) == 0 {
+		d.mon.mu.Lock()
+		snap := d.mon.node(nodeKey{shardID, replicaID}).SnapIndex
+		d.mon.mu.Unlock()
+		if index > snap {
+			if f := d.mon.OnViolation; f != nil {
+				f("log-compacted-beyond-durable-snapshot", "replica %d/%d on %s removes log entries up to %d, the newest snapshot durably recorded in its log store is %d",
+					shardID, replicaID, d.mon.host, index, snap)
+			}
+		}
+	}
+	return d.ILogDB.RemoveEntriesTo(shardID, replicaID, index)
 }
 
 func (d *monDB) SaveSnapshots(uds []pb.Update) error {
